@@ -805,7 +805,10 @@ def check_convergence(mbi, case, eng, last, probes):
         Lw, Lc, Lu = loss_of(mw, meas), loss_of(mc, meas), loss_of(uni, meas)
         hist.append((mult, Lw, Lc, Lu))
         best = min(Lw, Lc)
-        allowed = 1e-2 * max(Lu - best, 0.0) + 1e-9 * Lu + 1e-12
+        # 1% of what optimisation can gain over the uniform start, plus a floor far below the noise level: a loss difference of
+        # 5e-3 per scalar measurement is a normalised residual change of 0.1 sigma (needed when the optimum IS the uniform start)
+        m_rows = sum(int(np.size(y_)) for _, y_, _, _ in meas)
+        allowed = 1e-2 * max(Lu - best, 0.0) + 1e-9 * Lu + 5e-3 * m_rows + 1e-12
         if max(theta_mag(mw), theta_mag(mc)) >= 1e9 and Lw - Lc < -allowed:
             probes['convergence-skipped(theta>=1e9, F8)'] = probes.get('convergence-skipped(theta>=1e9, F8)', 0) + 1
             return None
